@@ -54,6 +54,12 @@ type SD struct {
 type Stream struct {
 	ID        int
 	Dir0      int // direction of the packet that created it
+	// LastFedAt: capture time of the most recent packet fed to the connection
+	// this stream belongs to (valid if HasFed); EndedInCall: an end-of-stream
+	// delivery reached it during the call in progress
+	LastFedAt   int64
+	HasFed      bool
+	EndedInCall int32
 	Bidir     bool
 	Completed int
 	Removed   bool // completion answered "remove"
@@ -81,6 +87,7 @@ type Harness struct {
 	PreMax     int
 	PktPages   int
 	CutOff     time.Time
+	CutOffC    time.Time // closing cut-off of the flush in progress
 	created    *Stream
 	feeding    *Pkt
 	endFeeding bool // the packet being fed is a FIN or RST
@@ -200,6 +207,9 @@ func (h *Harness) Deliver(s *Stream, d *Dir, skip int, b []byte, start, end bool
 	c.Ev("deliver", int64(s.ID), int64(d.Idx), int64(skip), int64(len(b)), b2i(start), b2i(end))
 	if s.Completed > 0 {
 		c.Fail("lifecycle", "data-after-completion", "stream", "stream %d got data for dir %d after its completion callback", s.ID, d.Idx)
+	}
+	if end {
+		s.EndedInCall = h.StartEv
 	}
 	x := h.sdOf(s, d)
 	first := x.Deliveries == 0
@@ -359,6 +369,12 @@ func (h *Harness) Complete(s *Stream, remove bool) {
 		h.C.Fail("lifecycle", "completed-twice", "stream", "stream %d got its completion callback %d times", s.ID, s.Completed)
 	}
 	s.Removed = remove
+	// Closing by age: a connection whose most recent packet was captured at or
+	// after the closing cut-off is not "older than" it under any reading
+	// (unless what closes it is a FIN/RST that this very flush released).
+	if h.Kind == CallFlushClose && h.Lifecycle && s.HasFed && !h.CutOffC.IsZero() && !T(s.LastFedAt).Before(h.CutOffC) && s.EndedInCall != h.StartEv {
+		h.C.Fail("age-flush", "closed-active-connection", "flush", "a closing flush with cut-off %v completed stream %d, whose connection received a packet captured at %v", h.CutOffC.Sub(Base), s.ID, T(s.LastFedAt).Sub(Base))
+	}
 	if h.Kind == CallNone {
 		h.C.Bugf("completion outside any call")
 	}
